@@ -12,6 +12,7 @@ from vp.lab import Config
 LEVEL = "fault_enumeration"
 BUDGET = {"quick": 240, "thorough": 2000}
 EIO, ENOSPC = 5, 28
+SHORT = -1          # not an error: the pread returns half of the bytes asked for (libvp)
 
 
 def scenarios(tier):
@@ -97,10 +98,28 @@ def fault_job(j):
     where = "%s cache=%d fail=%s" % (" ".join(cmd), cache, [(f[0].replace("{root}/", ""), f[1], f[2], f[3]) for f in faults])
     v = []
     injected = [e for e in res.trace if e.err in (EIO, ENOSPC) and e.ret == -1 and e.call in ("pread", "pwrite")]
+    shorts = [e for e in res.trace if e.err == SHORT and e.call == "pread"]
     if len(injected) < len(faults):
         # the run stopped before reaching a later fault: judge only what was injected
         pass
+    if all(f[3] == SHORT for f in faults):
+        # a short read is an ordinary answer of the OS: the command must go on reading and end exactly like the fault-free run
+        if not shorts:
+            return dict(viols=[dict(kind="harness-fault-not-injected", where=where)], harness=True)
+        if res.rc != 0 or res.tags.get("error") or res.tags.get("parity_error"):
+            v.append(dict(kind="short-read-not-transparent", where=where, rc=res.rc, out=res.text()[-300:]))
+        else:
+            c1 = L.content()
+            if clean_view is not None and other_stripes_view(c1, set()) != clean_view:
+                v.append(dict(kind="short-read-changes-the-result", where=where))
+            for o in X.c06(L, where):
+                o["kind"] = "short-read-c06-" + o["kind"]
+                v.append(o)
+        return dict(viols=v, harness=False, rc=res.rc, tail=None, write=False)
     if not injected:
+        if shorts and len(faults) > 1:
+            # the continuation of the short read was never issued (the short part already completed the block: last partial block)
+            return dict(viols=[], harness=False, rc=res.rc, tail=None, write=False, skipped=True)
         return dict(viols=[dict(kind="harness-fault-not-injected", where=where)], harness=True)
     try:
         c1 = L.content()
@@ -123,7 +142,7 @@ def fault_job(j):
         o["kind"] = "c06-" + o["kind"]
         o["write"] = is_write
         v.append(o)
-    only_eio = all(f[3] == EIO for f in faults)
+    only_eio = all(f[3] in (EIO, SHORT) for f in faults)
     if only_eio and res.rc != 0 and clean_view is not None:
         mine = other_stripes_view(c1, hit)
         want = {k: x for k, x in clean_view.items() if k not in hit}
@@ -228,6 +247,12 @@ def run(ctx):
                     if call == "pwrite":
                         singles.append(("{root}/" + rel, call, n, ENOSPC, pos))
             jobs = [(cfg, saved, cmd, cache, (f,), clean_view, order, ctx.seed) for f in singles]
+            # environment answer "short read" on every pread: alone (must be transparent), and followed by EIO on the continuation
+            for f in singles:
+                if f[1] == "pread" and f[3] == EIO and (cache in (1, 3)):
+                    sh = (f[0], f[1], f[2], SHORT, f[4])
+                    jobs.append((cfg, saved, cmd, cache, (sh,), clean_view, order, ctx.seed))
+                    jobs.append((cfg, saved, cmd, cache, (sh, (f[0], f[1], f[2] + 1, EIO, f[4])), clean_view, order, ctx.seed))
             if tier == "thorough" and cache in (1, 4):
                 eios = [f for f in singles if f[3] == EIO]
                 for a, b in itertools.combinations(eios, 2):
